@@ -635,7 +635,7 @@ def run_shift(case, ctx):
             mv = -mv
         sq = [x * x for x in xs]                           # documented: odd orders skew the samples (i**2) first
         sv = wmoment(sq, ws, k)
-        if abs(sv) < 1e-4 * wabs(sq, ws, wmean(sq, ws), k):
+        if abs(sv) <= 1e-4 * wabs(sq, ws, wmean(sq, ws), k):    # (<=: all squares equal gives 0 <= 0)
             ctx.exclude('odd-moment-of-skewed-samples-degenerate')
             k = None
     if k:
